@@ -277,6 +277,15 @@ class Gen:
         if not fs: lines.append("    pass")
         self.pool.add(lines)
         return self._obj_node("dataclass", n, fs, decl=lines)
+    def g_described(self, d):
+        """a type whose schema uses a keyword the older dialects spell differently (a fixed-length tuple, a one-value Literal / Enum,
+        a dependent_required class), wrapped in Annotated[..., schema(description=...)] - directly, or as the type of a dataclass field with
+        schema metadata: the annotations are merged level by level (`full_schema`); outside the Lean model (tag `described`)"""
+        import copy
+        inner = self.rnd.choice([self.g_tuple, self.g_tuple, self.g_falsy_const, self.g_optenum1, self.g_depreq])(max(d - 1, 0))
+        n = copy.copy(inner); n.tags = tuple(getattr(inner, "tags", ())) + ("described",)
+        n.py = f"Annotated[{inner.py}, schema(description='d', title='t')]"
+        return n
     def g_plain(self, d):
         """raw dataclass of check-only fields, most of them defaulted (literal defaults and default factories): the class
         `SimpleObjectMethod` + `FieldsConstructor` serve when dataclass constructors are overridden"""
